@@ -1,7 +1,7 @@
 /-!
 # Core/Ops — models of pyanalyze's "operate on known objects" kernels (property C19)
 
-Three models, each following the Python branch by branch (defects included; the off-by-two of
+Four models, each following the Python branch by branch (defects included; the off-by-two of
 `index_from_back`, implementation.py:447, was repaired in /repo by 07b1f6d and the model follows the repaired code):
 
 * `getitem` — `implementation.py:408 _sequence_common_getitem_impl`, the branch
@@ -14,6 +14,8 @@ Three models, each following the Python branch by branch (defects included; the 
   `type(r).__rop__(r, l)`, report `unsupported_operation` iff both produced errors.
 * `attrFallback` — `name_check_visitor.py:5319 _get_attribute_fallback`, `KnownValue` branch
   (5330‥5350, 5373): what happens when `attributes.get_attribute` found nothing on a known object.
+* `knownAttr` / `attrReported` — `attributes.py:430 _get_attribute_from_known` and `:504
+  _get_attribute_from_mro`: the precedence of the lookup of `obj.name` on a known object.
 
 Not modelled: keys that are not literal ints (slices, `__index__` objects, unions), `typ is Sequence`,
 the in-place operators, `in`, `%` on str/bytes (format strings, property C17), unions of operands,
@@ -156,5 +158,56 @@ structure AttrMiss where
 /-- `true` = `undefined_attribute` is shown (:5373); `false` = `Any[inference]` silently (:5350). -/
 def attrFallback (m : AttrMiss) : Bool :=
   !(!m.onlyKnown && (m.hasGetattr || m.ignoredRef))
+
+/-! ## 4. attribute lookup on a known object -/
+
+/-- What `getattr(obj, name)` really does. -/
+inductive Getattr | ok | attributeError | otherExc
+  deriving DecidableEq, Repr, Inhabited
+
+/-- The facts the known-object route looks at, in the order it looks at them
+(`attributes.py:430 _get_attribute_from_known`, `:504 _get_attribute_from_mro(obj, ctx, on_class=True)`):
+`hooked` = the default `KnownAttributeHook` answers (`sys.modules`, `typing.Any`; :402‥411);
+`isEnumCls` = obj is an Enum subclass (:508); `isModule`/`modAnn` = obj is a module and the name is in its
+`__annotations__` (:516‥526); `isType` = obj is a class; `stubAttr` = walking `type.mro(obj)` the stubs
+give a non-callable attribute type for the name (:539‥549); `inMroDict` = the `__dict__` of a class of
+the MRO has the name (:573‥584); `getattr` = what `getattr(obj, name)` does (:581, :596). -/
+structure AttrFacts where
+  hooked : Bool
+  isEnumCls : Bool
+  isModule : Bool
+  modAnn : Bool
+  isType : Bool
+  stubAttr : Bool
+  inMroDict : Bool
+  getattr : Getattr
+  deriving DecidableEq, Repr, Inhabited
+
+/-- `KnownValue(getattr(obj, name))`, a type taken from annotations/stubs/hook, `Any`, or
+`UNINITIALIZED_VALUE` (nothing found). -/
+inductive AttrRes | literal | typed | any | missing
+  deriving DecidableEq, Repr, Inhabited
+
+/-- The precedence of `_get_attribute_from_known`: hook, then (Enum classes) `getattr` on the class, then
+module annotations, then for classes the MRO walk (stub attribute, else `__dict__` hit → `getattr`),
+finally plain `getattr` on the object. There is no special-casing of attribute names (`__dict__`,
+`__class__`, …) on this route: the object itself is always consulted. Simplification: the MRO walk is
+per base class (stub, then `__dict__`); the model asks for a stub attribute anywhere first. -/
+def knownAttr (f : AttrFacts) : AttrRes :=
+  bif f.hooked then .typed                                          -- :438‥440
+  else bif f.isEnumCls && f.getattr == .ok then .literal            -- :508‥515
+  else bif f.isModule && f.modAnn then .typed                       -- :516‥526
+  else bif f.isType && f.stubAttr then .typed                       -- :539‥549
+  else bif f.isType && f.inMroDict then                             -- :573‥584
+    (bif f.getattr == .ok then .literal else .any)
+  else match f.getattr with                                         -- :593‥603
+    | .ok => .literal
+    | .attributeError => .missing
+    | .otherExc => .any
+
+/-- `visit_Attribute` → `get_attribute(…, use_fallback=True)` (name_check_visitor.py:5228, :5308):
+`undefined_attribute` is reported iff the lookup found nothing and the fallback does not swallow it. -/
+def attrReported (f : AttrFacts) (m : AttrMiss) : Bool :=
+  knownAttr f == .missing && attrFallback m
 
 end Pya.C19
